@@ -147,6 +147,51 @@ for s_i in range(nsetups):
         samples.append({"setup": {"elements": numel, "max_refl": max_refl, "frequency": freq, "kappa_model": kappa_model,
                                   "views": len(views)}})
 
+# ---------------------------------------------------------------------------
+# the public pipeline scat_unshifted_transfer_functions (precomputed scattering matrices or
+# functions), with a HISTORY on the scatterer object: first a subset of the views, then all
+# ---------------------------------------------------------------------------
+for t_i in range(2 if Q else 12):
+    setup = arimgen.immersion_setup(rng, max_refl=int(rng.integers(0, 2)), wall_points=80, numelements=3, numscat=2)
+    views, block, probe = setup["views"], setup["block"], setup["probe"]
+    numel = probe.numelements
+    tx, rx = arim.ut.fmc(numel)
+    freq = setup["freq"]
+    kinds = [("sdh", lambda: scat.scat_factory("sdh", block, radius=0.4e-3))]
+    if t_i == 0 or not Q:
+        kinds.append(("crack_centre", lambda: scat.scat_factory("crack_centre", block, crack_length=1.0e-3)))
+    for sname, mk in kinds:
+        for nang in (0, 24):
+            if sname == "crack_centre" and nang == 0 and Q:
+                continue
+            obj = mk()
+            opts = dict(probe_element_width=0.5e-3, scat_angle=0.3, numangles_for_scat_precomp=nang)
+            some = {k: v for k, v in views.items() if k == "L-L"}
+            list(bim.scat_unshifted_transfer_functions(some, tx, rx, freq, obj, **opts))       # history
+            tfs = {vn: tf for vn, (tf, _) in zip(views, bim.scat_unshifted_transfer_functions(views, tx, rx, freq, obj, **opts))}
+            scale = max(float(np.nanmax(np.abs(a))) for a in tfs.values()) or 1.0
+            tol = RTOL if nang == 0 else 1e-9
+            for vn, a in tfs.items():
+                rvn = arim.ut.reciprocal_viewname(vn)
+                A = a[..., 0].reshape(a.shape[0], numel, numel)
+                Bt = np.transpose(tfs[rvn][..., 0].reshape(a.shape[0], numel, numel), (0, 2, 1))
+                ok_mask = np.isfinite(A) & np.isfinite(Bt)
+                if not ok_mask.any():
+                    continue
+                diff = np.where(ok_mask, np.abs(A - Bt), 0.0)
+                res = float(np.max(diff) / scale)
+                evaluations += A.size
+                nontrivial.add(("pipeline", t_i, sname, nang, vn))
+                chk.count(pipeline=f"{sname}:numangles={nang}")
+                if not (res <= tol):
+                    g_, i, j = np.unravel_index(int(np.argmax(diff)), A.shape)
+                    chk.violation(f"pipeline:{sname}",
+                                  f"scat_unshifted_transfer_functions: H_ij({vn}) != H_ji({rvn}) for '{sname}' "
+                                  f"(numangles_for_scat_precomp={nang}, scatterer object used before for the L-L view alone)",
+                                  {"view": vn, "reciprocal_view": rvn, "scatterer": sname, "numangles_for_scat_precomp": nang,
+                                   "i": int(i), "j": int(j), "H_ij": A[g_, i, j], "H_ji_reciprocal": Bt[g_, i, j],
+                                   "relative_residual": res, "frequency": freq})
+
 chk.finish(
     evaluations=evaluations,
     distinct_nontrivial=len(nontrivial),
